@@ -535,3 +535,22 @@ impl AccessControlProfile {
         })
     }
 }
+
+// Verification hook (C24). Add-only and behaviour neutral; only compiled with `verif-hooks`.
+#[cfg(feature = "verif-hooks")]
+impl AccessControlProfile {
+    /// Assemble a profile from explicit parts (the `uuid` field is private to this module).
+    pub fn verif_c24_new(
+        name: String,
+        uuid: Uuid,
+        receiver: AccessControlReceiver,
+        target: AccessControlTarget,
+    ) -> Self {
+        AccessControlProfile {
+            name,
+            uuid,
+            receiver,
+            target,
+        }
+    }
+}
